@@ -429,7 +429,7 @@ func (c *canon) val(v ssa.Value, d int) string {
 				}
 				return c.val(a.X, d) + "." + fieldName(a.X.Type(), a.Field)
 			case *ssa.IndexAddr:
-				return c.val(a.X, d) + c.indexOf(a.X, a.Index, d)
+				return c.elem(a.X, a.Index, d)
 			case *ssa.Alloc:
 				if p := spilledParam(a); p != nil && len(storesTo(a)) == 1 {
 					return fmt.Sprintf("p%d", paramIndex(p))
@@ -480,9 +480,9 @@ func (c *canon) val(v ssa.Value, d int) string {
 	case *ssa.Field:
 		return c.val(x.X, d) + "." + fieldName(x.X.Type(), x.Field)
 	case *ssa.IndexAddr:
-		return "&" + c.val(x.X, d) + c.indexOf(x.X, x.Index, d)
+		return "&" + c.elem(x.X, x.Index, d)
 	case *ssa.Index:
-		return c.val(x.X, d) + c.indexOf(x.X, x.Index, d)
+		return c.elem(x.X, x.Index, d)
 	case *ssa.Lookup:
 		return c.val(x.X, d) + "[" + c.val(x.Index, d-1) + "]"
 	case *ssa.Slice:
@@ -526,7 +526,7 @@ func (c *canon) val(v ssa.Value, d int) string {
 				case 1:
 					return "key(" + c.val(r.X, d) + ")"
 				default:
-					return c.val(r.X, d) + "[]"
+					return c.val(unsliced(r.X), d) + "[]"
 				}
 			}
 		}
@@ -717,6 +717,30 @@ func isDownCounter(ph *ssa.Phi) ssa.Value {
 		of = call.Call.Args[0]
 	}
 	return of
+}
+
+// elem renders base[idx]; "some element" of a sub-slice is some element of the
+// sliced value (loop bounds are not part of the form either).
+func (c *canon) elem(base, idx ssa.Value, d int) string {
+	ix := c.indexOf(base, idx, d)
+	if ix == "[]" {
+		return c.val(unsliced(base), d) + ix
+	}
+	return c.val(base, d) + ix
+}
+
+func unsliced(v ssa.Value) ssa.Value {
+	for i := 0; i < 4; i++ {
+		sl, ok := Strip(v).(*ssa.Slice)
+		if !ok {
+			break
+		}
+		if _, isAlloc := sl.X.(*ssa.Alloc); isAlloc {
+			break // variadic pack / local array
+		}
+		v = sl.X
+	}
+	return v
 }
 
 // indexOf: like index, but recognises `x[len(x)-1]` as "[last]".
